@@ -8,7 +8,7 @@
 (* rendering of the abstract value, `stream' the bytes fed to the Hasher.    *)
 (* Identity is faithful iff, per category, stream is an INJECTIVE FUNCTION   *)
 (* of key:  equal values never split (function), distinct values never      *)
-(* merge (injective).  Env: RECS, OUT.                                       *)
+(* merge (injective), and == agrees with the key.  Env: RECS, OUT.            *)
 (***************************************************************************)
 EXTENDS Naturals, Sequences, FiniteSets, Json, IOUtils, TLC
 Recs == ndJsonDeserialize(IOEnv.RECS)
@@ -21,6 +21,10 @@ Streams(c) == {Recs[i].stream : i \in Of(c)}
 NeverSplit(c) == Cardinality(Pairs(c)) = Cardinality(Keys(c))
 (* distinct abstract values feed distinct streams *)
 NeverMerge(c) == Cardinality(Streams(c)) = Cardinality(Keys(c))
-Verdict == [c \in Cats |-> [split |-> ~NeverSplit(c), merge |-> ~NeverMerge(c), values |-> Cardinality(Keys(c)), built |-> Cardinality(Of(c))]]
+(* == agrees with the abstract value: a concrete value compares equal (in both orders: every value is compared with every
+   value of its category) exactly to the constructions of the same abstract value *)
+EqExact(c) == \A i \in Of(c) : "eq_keys" \in DOMAIN Recs[i] => {Recs[i].eq_keys[k] : k \in DOMAIN Recs[i].eq_keys} = {Recs[i].key}
+Verdict == [c \in Cats |-> [split |-> ~NeverSplit(c), merge |-> ~NeverMerge(c), eq_wrong |-> ~EqExact(c),
+                            values |-> Cardinality(Keys(c)), built |-> Cardinality(Of(c))]]
 ASSUME JsonSerialize(IOEnv.OUT, [n |-> Len(Recs), cats |-> {[cat |-> c, v |-> Verdict[c]] : c \in Cats}])
 =============================================================================
